@@ -152,7 +152,7 @@ def gen(s: Choices, cls, cfg):
             r, c = s.draw(7), 1 + s.draw(5)
             sc["shape"] = [r, c]
             sc["kind_a"] = s.weighted([(3, "ndarray"), (2, "pandas"), (1, "polars")])
-            sc["dt"] = s.weighted([(2, "float64"), (2, "int64"), (1, "mixed")])
+            sc["dt"] = s.weighted([(2, "float64"), (2, "int64"), (1, "mixed"), (1, "mixed_columns")])
             sc["a"] = [s.draw(7) for _ in range(r * c)]
             sc["b"] = [s.draw(7) for _ in range(c)]
             sc["numba_threads"] = 1 + s.draw(2)
@@ -431,13 +431,22 @@ def _run_helper(sc, rec, add):
             a, b = ai, bi / 2.0
         else:
             a, b = ai, bi
+        mixed_cols = sc["dt"] == "mixed_columns"
+        if mixed_cols:
+            a = ai.astype(np.float64)
+            a[:, 1::2] /= 2.0  # odd columns hold halves, even columns whole numbers
         exp = a @ b
+
+        def col(j):
+            # a frame whose columns have different dtypes: even columns int64, odd float64
+            return a[:, j].astype(np.int64) if (mixed_cols and j % 2 == 0) else a[:, j]
+
         if sc["kind_a"] == "ndarray":
             A = a
         elif sc["kind_a"] == "pandas":
-            A = pd.DataFrame(a, columns=[f"c{j}" for j in range(c)], index=np.arange(r) * 3 + 1)
+            A = pd.DataFrame({f"c{j}": col(j) for j in range(c)}, index=np.arange(r) * 3 + 1) if c else pd.DataFrame(a)
         else:
-            A = pl.DataFrame({f"c{j}": a[:, j] for j in range(c)})
+            A = pl.DataFrame({f"c{j}": col(j) for j in range(c)})
         try:
             got = util.nb_dot(A, b)
             g = np.asarray(got, dtype=np.float64)
